@@ -76,9 +76,13 @@ def gen_case(rng, tier, i):
     if kind == "kernel" and rng.random() < 0.12:
         c = rng.choice(cols)
         c["theta"][rng.randrange(len(c["theta"]))] = None       # NaN bound
+    int_phi = rng.random() < 0.12          # integer-typed data (counts per cell): shares must not be truncated
+    if int_phi:
+        for c in cols:
+            c["phi"] = [float(rng.randint(-3, 9)) for _ in range(n)]
     decreasing = rng.random() < 0.3
     bad_bins = rng.random() < 0.05
-    case = {"kind": kind, "exact": exact, "n": n, "lead": lead, "cols": cols,
+    case = {"kind": kind, "exact": exact, "n": n, "lead": lead, "cols": cols, "int_phi": int_phi,
             "bins": (edges[::-1] if decreasing else edges), "bad_bins": bad_bins}
     if bad_bins and len(case["bins"]) >= 3:
         b = list(case["bins"])
@@ -92,7 +96,7 @@ def gen_case(rng, tier, i):
         case["chunk"] = rng.random() < 0.4
         # one column per extra index
         while len(case["cols"]) < case["extra"]:
-            case["cols"].append({"phi": [dyadic(rng, -8, 8, 2) for _ in range(n)],
+            case["cols"].append({"phi": [float(rng.randint(-3, 9)) if int_phi else dyadic(rng, -8, 8, 2) for _ in range(n)],
                                  "theta": gen_profile(rng, n, edges, exact)})
         case["cols"] = case["cols"][: case["extra"]]
     return case
@@ -122,7 +126,8 @@ def eval_kernel(case, drv):
     from xgcm.transform import interp_1d_conservative
     n, lead, bins = case["n"], case["lead"], case["bins"]
     exact = case["exact"]
-    phi = np.array([c["phi"] for c in case["cols"]], dtype=float).reshape(lead + [n])
+    pdt = np.int64 if case.get("int_phi") else float
+    phi = np.array([c["phi"] for c in case["cols"]], dtype=pdt).reshape(lead + [n])
     theta = np.array([[np.nan if t is None else t for t in c["theta"]] for c in case["cols"]],
                      dtype=float).reshape(lead + [n + 1])
     b = np.array(bins, dtype=float)
@@ -164,7 +169,7 @@ def eval_kernel(case, drv):
             prop_ok = False
             detail["nonneg"] = {"col": k, "out": o.tolist()}
         # reversed bins only reverse the output
-        o2 = interp_1d_conservative(np.array(c["phi"], dtype=float), np.array(th, dtype=float), b[::-1].copy())
+        o2 = interp_1d_conservative(np.array(c["phi"], dtype=pdt), np.array(th, dtype=float), b[::-1].copy())
         if not all(close(x, frac(y), exact) for x, y in zip(o2[::-1].tolist(), o.tolist())):
             prop_ok = False
             detail["reverse"] = {"col": k, "fwd": o.tolist(), "rev": o2.tolist()}
@@ -172,13 +177,13 @@ def eval_kernel(case, drv):
         if len(bins) >= 3:
             j = 1 + (k % (len(bins) - 2))
             merged = np.delete(b, j)
-            o3 = interp_1d_conservative(np.array(c["phi"], dtype=float), np.array(th, dtype=float), merged)
+            o3 = interp_1d_conservative(np.array(c["phi"], dtype=pdt), np.array(th, dtype=float), merged)
             want = list(o[: j - 1]) + [o[j - 1] + o[j]] + list(o[j + 1:])
             if not all(close(x, frac(y), exact) or abs(x - y) <= 1e-9 * max(1, abs(x)) for x, y in zip(o3.tolist(), want)):
                 prop_ok = False
                 detail["merge"] = {"col": k, "j": j, "merged": o3.tolist(), "want": [float(w) for w in want]}
         # column independence: the column alone
-        o4 = interp_1d_conservative(np.array(c["phi"], dtype=float), np.array(th, dtype=float), b)
+        o4 = interp_1d_conservative(np.array(c["phi"], dtype=pdt), np.array(th, dtype=float), b)
         if not np.array_equal(o4, o):
             prop_ok = False
             detail["columns"] = {"col": k, "alone": o4.tolist(), "in_nd": o.tolist()}
@@ -197,7 +202,8 @@ def eval_transform(case, drv):
     ds = xr.Dataset(coords={"zc": ("zc", np.arange(n) + 0.5), "zo": ("zo", np.arange(n + 1) * 1.0),
                             "e": ("e", np.arange(E) * 1.0)})
     grid = xgcm.Grid(ds, coords={"Z": {"center": "zc", "outer": "zo"}}, boundary="extend", autoparse_metadata=False)
-    phi = xr.DataArray(np.array([c["phi"] for c in cols], dtype=float), dims=["e", "zc"], name="phi")
+    phi = xr.DataArray(np.array([c["phi"] for c in cols], dtype=np.int64 if case.get("int_phi") else float),
+                       dims=["e", "zc"], name="phi")
     theta_o = np.array([c["theta"] for c in cols], dtype=float)
     if case["on_centres"]:
         tc = theta_o[:, :n].copy()
